@@ -43,7 +43,7 @@ type c02Image struct {
 // itself SIGKILL right before driver-level operation number `op` of block `height`.
 func KillTest(chain string, height uint32, op int, dbpath string) {
 	var cov Coverage
-	for _, cv := range []Coverage{CoverageLegacy(), Coverage2x(), CoverageAcross100()} {
+	for _, cv := range []Coverage{CoverageLegacy(), Coverage2x(), CoverageAcross100(), CoverageLargeBlock()} {
 		if cv.Name == chain {
 			cov = cv
 		}
@@ -79,6 +79,8 @@ func KillTest(chain string, height uint32, op int, dbpath string) {
 	os.Exit(4) // the crash point was never reached
 }
 
+func thinnedAt(cov Coverage, h uint32) bool { return cov.ImageStride != nil && cov.ImageStride(h) > 1 }
+
 // c02Dump reads the ledger through a second connection (see canon.FileWAL for the WAL case).
 func c02Dump(dbfile string, wal bool) (canon.Dump, error) {
 	if wal {
@@ -89,7 +91,10 @@ func c02Dump(dbfile string, wal bool) (canon.Dump, error) {
 
 func runC02(c *core.Ctx, r *core.Result) {
 	covs := []Coverage{CoverageLegacy(), Coverage2x()}
-	for _, cov := range append(covs, CoverageAcross100()) {
+	for _, cov := range append(covs, CoverageAcross100(), CoverageLargeBlock()) {
+		if only := os.Getenv("PVMC_C02_CHAIN"); only != "" && only != cov.Name {
+			continue
+		}
 		c02Chain(c, r, cov, false)
 	}
 	if c.Thorough() {
@@ -142,6 +147,11 @@ func c02Chain(c *core.Ctx, r *core.Result, cov Coverage, wal bool) {
 		}
 		if !mine[h] {
 			return
+		}
+		if cov.ImageStride != nil {
+			if n := cov.ImageStride(h); n > 1 && opInBlock%n != 0 && opInBlock != 1 && !strings.Contains(desc, "commit") && !strings.Contains(desc, "pn_metadata") {
+				return
+			}
 		}
 		img := &c02Image{height: h, op: opInBlock, desc: desc, committed: committed, dirty: dirty,
 			dir: fmt.Sprintf("%s/img-%d-%d", dir, h, len(images))}
@@ -343,7 +353,7 @@ func c02Chain(c *core.Ctx, r *core.Result, cov Coverage, wal bool) {
 		}
 		// (d) "a block fails at any instant": the same operation returns an error once instead of the process dying there.
 		// The daemon (restarted if it chooses to exit) must still apply every height once, in order, without gaps.
-		if ok && !wal && startHeight == img.height && strings.HasPrefix(img.desc, "before ") && (img.op%resumeStride == 0 || nearCommit || c.Only != "") {
+		if ok && !wal && startHeight == img.height && strings.HasPrefix(img.desc, "before ") && (img.op%resumeStride == 0 || nearCommit || c.Only != "") && (!thinnedAt(cov, img.height) || nearCommit) {
 			r.Count("block-failures-injected", 1)
 			c02FailAt(r, cov, b, D, startDir, img, key, dir)
 		}
@@ -352,7 +362,8 @@ func c02Chain(c *core.Ctx, r *core.Result, cov Coverage, wal bool) {
 		if c.Thorough() {
 			killStride = 97
 		}
-		if !wal && img.desc != "after-commit" && (i%killStride == 0 || c.Only != "") {
+		thinned := thinnedAt(cov, img.height) // few images, each far into a large transaction: all of them
+		if !wal && img.desc != "after-commit" && (i%killStride == 0 || c.Only != "" || thinned) {
 			kdir := img.dir + "-kill"
 			os.MkdirAll(kdir, 0777)
 			self, _ := os.Executable()
